@@ -415,19 +415,26 @@ type emptySc struct {
 	NoBoot  bool   `json:"no_bootstrap_option"`
 	NoCrawl bool   `json:"no_crawler_option"`
 	NKeys   int    `json:"n_keys"`
+	// missing / degenerate sizing options, with a table that is not empty (0-6 crawled peers)
+	NoBucket bool `json:"no_bucket_size_option,omitempty"`
+	Limit0   bool `json:"ip_limit_zero,omitempty"`
+	Crawled  int  `json:"crawled,omitempty"`
 }
 
 func TestVerif_C16_Empty(t *testing.T) {
 	verifsim.RunCheck(t, verifsim.Check[emptySc]{
 		Property: "C16", Part: "empty",
-		Rule: "rapid: every single and bulk operation (GetClosestPeers, FindPeer, GetValue, SearchValue, PutValue, Provide, FindProvidersAsync, ProvideMany, PutMany) on an accelerated client whose table is empty, " +
-			"constructed with or without the bootstrap-peers / crawler options; oracle: the constructor and the operation return (an error or an empty result) within 10 min of virtual time and never panic; non-trivial = a bulk operation or a missing option",
+		Rule: "rapid: every single and bulk operation (GetClosestPeers, FindPeer, GetValue, SearchValue, PutValue, Provide, FindProvidersAsync, ProvideMany, PutMany) on an accelerated client whose table is empty or holds 1-6 crawled peers, " +
+			"constructed with or without the bootstrap-peers / crawler / bucket-size options and with the IP-diversity limit set to 0 or left at its default; oracle: the constructor and the operation return (an error or an empty result) within 10 min of virtual time and never panic; non-trivial = a bulk operation or a missing option",
 		Gen: func(t *rapid.T) emptySc {
 			return emptySc{
-				Op:      rapid.SampledFrom([]string{"closest", "findpeer", "getvalue", "searchvalue", "putvalue", "provide", "findprov", "providemany", "putmany"}).Draw(t, "op"),
-				NoBoot:  rapid.IntRange(0, 3).Draw(t, "noBoot") == 0,
-				NoCrawl: rapid.IntRange(0, 3).Draw(t, "noCrawl") == 0,
-				NKeys:   rapid.IntRange(0, 3).Draw(t, "nKeys"),
+				Op:       rapid.SampledFrom([]string{"closest", "findpeer", "getvalue", "searchvalue", "putvalue", "provide", "findprov", "providemany", "putmany"}).Draw(t, "op"),
+				NoBoot:   rapid.IntRange(0, 3).Draw(t, "noBoot") == 0,
+				NoCrawl:  rapid.IntRange(0, 3).Draw(t, "noCrawl") == 0,
+				NKeys:    rapid.IntRange(0, 3).Draw(t, "nKeys"),
+				NoBucket: verifsim.Chance(t, "noBucket", 30),
+				Limit0:   verifsim.Chance(t, "limit0", 40),
+				Crawled:  rapid.SampledFrom([]int{0, 0, 1, 3, 6}).Draw(t, "crawled"),
 			}
 		},
 		Run: func(t *testing.T, sc emptySc) (res verifsim.Result) {
@@ -435,14 +442,24 @@ func TestVerif_C16_Empty(t *testing.T) {
 				h := verifnet.NewHost(peer.ID(c16pp().IDs[c16Pool-1]), []ma.Multiaddr{ma.StringCast("/ip4/8.200.0.1/tcp/1")})
 				defer h.Close()
 				sim := verifnet.NewSim()
-				opts := []kaddht.Option{kaddht.BucketSize(4), kaddht.Validator(c16Validator{}),
+				opts := []kaddht.Option{kaddht.Validator(c16Validator{}),
 					kaddht.WithCustomMessageSender(func(host.Host, []protocol.ID) pb.MessageSenderWithDisconnect { return sim })}
+				if !sc.NoBucket {
+					opts = append(opts, kaddht.BucketSize(4))
+				}
 				if !sc.NoBoot {
 					opts = append(opts, kaddht.BootstrapPeersFunc(func() []peer.AddrInfo { return nil }))
 				}
 				fopts := []Option{DHTOption(opts...)}
+				if sc.Limit0 {
+					fopts = append(fopts, WithIPDiversityFilterLimit(0))
+				}
 				if !sc.NoCrawl {
-					fopts = append(fopts, WithCrawler(&fakeCrawler{}))
+					var cps []crawledPeer
+					for i := 0; i < sc.Crawled; i++ {
+						cps = append(cps, crawledPeer{ID: 20 + i, Groups: []int{i % 3}})
+					}
+					fopts = append(fopts, WithCrawler(&fakeCrawler{peers: install(h, cps)}))
 				}
 				var d *FullRT
 				var err error
